@@ -373,6 +373,57 @@ def judge_dynamic(S, text, name, st, v, ref, ans):
         S.violation("C13.decode", "C13.decode/value-differs/%s" % cc, dict(inp, op="dyn_dec", bytes=ref), expected={"static": sv}, actual={"dynamic": detail, "raw": a_ddec})
 
 
+RELOAD_REVISIONS = [
+    # (older revision, newer revision) of one schema: same names, changed definitions
+    ('version: "3"\nenum Mode { Off = 0, On = 1, }\nstruct S { a @0: u8, m @1: Mode, }\n',
+     'version: "3"\nenum Mode { Off = 0, On = 1, Auto = 2, }\nstruct S { a @0: u16, m @1: Mode, b @2: u8, }\n',
+     {"a": 258, "m": 1, "b": 7}, {"a": 258, "m": "On", "b": 7}),
+    ('version: "3"\nstruct In { x @0: u4, }\nstruct S { i @0: In, k @1: u4, }\n',
+     'version: "3"\nstruct In { x @0: i12, y @1: u4, }\nstruct S { k @1: u4, i @0: In, }\n',
+     {"i": {"x": -3, "y": 9}, "k": 5}, {"i": {"x": -3, "y": 9}, "k": 5}),
+]
+
+
+def run_reload(S):
+    """C13 over histories of LoadBinarySchema on ONE DynamicSchema object: load(old), load(new) must behave like a
+    fresh object that loaded (new); and load(new), load(new) like one load."""
+    from fcp.parser import get_fcp_from_string
+    from fcp.error import Logger
+    from fcp.reflection import get_reflection_schema
+    from fcp import serde
+
+    rschema = get_reflection_schema().unwrap()
+    for old_text, new_text, static_value, dynamic_value in RELOAD_REVISIONS:
+        S.count("states")
+        S.add("nontrivial", ("reload", new_text))
+        refl = {}
+        for k, t in (("old", old_text), ("new", new_text)):
+            f = get_fcp_from_string(t, Logger({})).unwrap()
+            refl[k] = bytes(serde.encode(rschema, "Fcp", f.reflection()))
+        fcp = get_fcp_from_string(new_text, Logger({})).unwrap()
+        exe, err = cppbuild.build(cppbuild.generate_cpp(fcp))
+        S.count("executions")
+        if exe is None:
+            continue  # C03's subject
+        for hist in (("old", "new"), ("new", "new"), ("old", "old", "new")):
+            S.count("transitions")
+            S.count("executions")
+            reqs = [{"op": "dyn_load", "bytes": list(refl[h])} for h in hist[1:]]
+            reqs += [{"op": "enc", "name": "S", "value": static_value}, {"op": "dyn_enc", "name": "S", "value": dynamic_value}]
+            ans = cppbuild.run_requests(exe, reqs, refl[hist[0]])
+            st_enc, dy_enc = ans[-2], ans[-1]
+            inp = {"text": new_text, "older_revision": old_text, "ops": ["load:" + h for h in hist] + ["EncodeJson(S)"], "value": static_value}
+            if st_enc.get("bytes") is None or dy_enc.get("bytes") != st_enc.get("bytes"):
+                S.add("outcomes", "reload-differs")
+                S.violation("C13.history", "C13.history/schema-loaded-into-a-used-object-differs-from-a-fresh-one/%s" % ("after-older-revision" if "old" in hist else "same-revision-twice"), inp, expected={"static": st_enc}, actual={"dynamic": dy_enc})
+                continue
+            dec = cppbuild.run_requests(exe, reqs[: len(hist) - 1] + [{"op": "dec", "name": "S", "bytes": st_enc["bytes"]}, {"op": "dyn_dec", "name": "S", "bytes": st_enc["bytes"]}], refl[hist[0]])
+            if "value" not in dec[-1] or "value" not in dec[-2]:
+                S.violation("C13.history", "C13.history/decode-after-reload-fails", inp, expected=dec[-2], actual=dec[-1])
+            else:
+                S.add("outcomes", "reload-ok")
+
+
 def run(prop, tier):
     common.bind_repo()
     r = Run(prop, tier)
@@ -386,6 +437,8 @@ def run(prop, tier):
     for s in pmap(work, chunks(list(enumerate(structs)), BATCH)):
         r.stats.merge(s)
     r.stats.c["transitions"] += transitions
+    if prop == "C13":
+        run_reload(r.stats)
     if prop == "C03":
         from . import cppschemas
 
